@@ -679,7 +679,28 @@ func metaColocatedScenario() string {
 // on each of them; both re-establishments look the merged region up at the same moment, one of them
 // puts it into the location cache and the other finds it already there. Both waiting requests
 // must be released and served by the merged region.
-func mergeRaceScenario() string {
+func mergeRaceScenario() string { return mergeScenario(false) }
+
+// mergeOrderedScenario: the same, with the order scripted instead of raced: the location cache is
+// locked while both lookups are answered, and released only once both re-establishments stand
+// in front of it with the merged region in hand (the loser finds it already there).
+func mergeOrderedScenario() string {
+	return strings.Replace(mergeScenario(true), "merge-race", "merge-ordered", 1)
+}
+
+func goroutinesIn(fn string) int {
+	buf := make([]byte, 1<<20)
+	n := runtime.Stack(buf, true)
+	cnt := 0
+	for _, blk := range bytes.Split(buf[:n], []byte("\n\n")) {
+		if bytes.Contains(blk, []byte(fn)) {
+			cnt++
+		}
+	}
+	return cnt
+}
+
+func mergeScenario(ordered bool) string {
 	setSleepOverride(fastBackoff)
 	defer setSleepOverride(nil)
 	c := newSimCluster()
@@ -722,7 +743,16 @@ func mergeRaceScenario() string {
 	c.mu.Lock()
 	c.metaHold = nil
 	c.mu.Unlock()
+	if ordered {
+		sc.v.Cache().Lock()
+	}
 	close(hold)
+	if ordered {
+		for i := 0; i < 1000 && goroutinesIn("(*keyRegionCache).put") < 2; i++ {
+			time.Sleep(2 * time.Millisecond)
+		}
+		sc.v.Cache().Unlock()
+	}
 	r1, r2 := "blocked", "blocked"
 	select {
 	case r1 = <-res:
@@ -1616,8 +1646,11 @@ func init() {
 			if shard == 3%nsh {
 				emit(strings.Replace(probeAfterDeath(), "c09 script", "c04 script", 1))
 			}
-			for i := shard; i < 64; i += nsh {
+			for i := shard; i < 24; i += nsh {
 				emit(mergeRaceScenario())
+			}
+			for i := shard; i < 4; i += nsh {
+				emit(mergeOrderedScenario())
 			}
 		})
 	}
@@ -1695,8 +1728,11 @@ func init() {
 				emit(metaColocatedScenario())
 			}
 			if !raceChild {
-				for i := shard; i < 64; i += nsh {
+				for i := shard; i < 24; i += nsh {
 					emit(strings.Replace(mergeRaceScenario(), "c04 script", "c09 script", 1))
+				}
+				for i := shard; i < 4; i += nsh {
+					emit(strings.Replace(mergeOrderedScenario(), "c04 script", "c09 script", 1))
 				}
 			}
 			if !raceChild {
